@@ -105,6 +105,30 @@ CHECKS["C20"] = ("exploration",
   "2-3 clones x generated scripts {open by index/name, read k, read to end, close}: every interleaving (<= 1680 per script set; ~13k per quick run) must give each handle exactly the observations of the same script on an archive used alone. Fresh archive x N in {2,4,8,16} OS threads released from a barrier, shared-prefix orders, by index and by name. A probe crate compiles only if ZipArchive<R>: Send + Sync for R: Send + Sync.",
   "OS thread schedules are sampled, not enumerated; the single-thread enumeration is the deciding part. Send/Sync is observed by a build probe (not generated inputs) because it is a compile-time fact.",
   "DESIGN.md §4 C20")
+# additions of the third session (appended to the level text above)
+ADD = {
+ "C01": " Also EVERY archive-comment length 0..=65535 (with a name of the same length every 16th case) goes through writer and reader, so no magic length of the end-record search is left out.",
+ "C02": " The reject domain is also run on a sparse sink whose start position lies just below / above 2^32 (central records then carry the writer's own ZIP64 record next to the caller's extra data) and with the caller carrying on after a refusal: whenever finish() reports success the archive must parse strictly and hold exactly the entries whose creation succeeded.",
+ "C03": " tail_sweep / prefix_sweep: every length 0..=65535 of comment (+ trailing garbage) and of prepended data, with and without ZIP64 end records (exhaustive over the length). Entries also carry well-formed third-party records (Info-ZIP Unicode Path/Comment with matching CRC and different text, extended timestamp, Unix, NTFS), unflagged names that happen to be valid UTF-8, components > 255 bytes with multi-byte characters, drive prefixes, and name+extra lengths whose sum exceeds 16 bits.",
+ "C05": " A worker killed by a fatal signal raised inside libbz2 (listed known finding bzip2-c-decoder-uninitialised-read) is restarted with that case left out and counted; the stored reproducer is re-run in a child process with MALLOC_PERTURB_=1. After a read error the driver keeps calling read (must not panic).",
+ "C06": " mixed_separators: every sequence of <= 6 (7) components with '/' or '\\' chosen independently at every joint; special_names: drive-letter/UNC/device prefixes and components > 255 bytes with multi-byte characters around offset 255; every batch mixes producer host systems (Unix, MS-DOS, NTFS, other).",
+ "C07": " A third of the archives shuffle the central directory against the physical order, directory entries may follow their children, a quarter of the cases pass a relative target with leading '..' components (the worker parks its working directory), mixed '\\' and '/' separators in front of '..' chains, symlink-typed entries in the safe pool, and a one-bit damage variant: extract() either fails or has written only original content.",
+ "C08": " Compressing method beyond 4 GiB without large_file (finish() must not succeed afterwards) is part of the quick tier.",
+ "C09": " Larger AES seed entries and caller-buffer schedules with big reads after unaligned ones; uniform chunk sizes up to 4095; the caller's pieces are delivered by write_all, by write() loops honouring the returned counts, or by write_vectored.",
+ "C10": " counts: crate-written archives with 65535/65536 (thorough ..70000) entries through both streaming APIs.",
+ "C11": " big_open: archives with > 65535 entries, a fault at each of the first K I/O calls of ZipArchive::new and of new_append (+1 entry, finish).",
+ "C12": " The alphabet also holds start_file with a 65536-byte name and set_comment with a 65536-byte comment; extra_ids enumerates EVERY 16-bit header ID x {only, second record} x {local, central-only}. After a refused call whose effect is not documented the history is unspecified (sound), but every finish() that reports success is still checked: the archive parses, every entry decodes to its declared CRC/size, the crate reopens it and the entries completed before are intact.",
+ "C13": " big_bases: 65534/65535-entry bases (bare / behind prepended data) with rounds crossing the 16-bit count; cpython_bases: archives written by CPython zipfile; rounds may contain raw copies from another archive before or after their own entries.",
+ "C14": " straddle: hand-laid-out sparse sources whose declared uncompressed/compressed sizes lie on either side of 4 GiB; local header, central record and both readers must state the source sizes.",
+ "C15": " Foreign encrypted entries vary producer id (host system, version), DOS date and carry third-party records (e.g. an extended timestamp differing from the DOS time the Info-ZIP check byte is taken from); the 256-value check-byte family is run for four producer ids.",
+ "C17": " Alignment is also exercised with the sink starting around and beyond 2^32 (sparse sink); after refused extra data the caller carries on: an archive then reported as finished must be valid and must not carry the refused bytes.",
+ "C18": " cal_offsets: OffsetDateTime values with non-UTC offsets at the ends of the year range (no panic; accepted values valid and equal to the wall-clock or UTC reading; survive packing and an archive round trip); the archive-level sweep also attaches extended-timestamp / NTFS / Unix time records stating a different time.",
+ "C19": " Entries optionally carry Info-ZIP Unicode Path/Comment records with matching CRC and a different text (decoding must still follow the flag and the header bytes); names also go through raw_copy_file_rename.",
+ "C20": " The underlying reader's clone() keeps the position, rewinds or lands elsewhere; clones are also taken from a handle that has just been used; faulty_sibling: the other clone's own reader fails or panics at every I/O call index, the sibling must observe exactly what a handle used alone observes.",
+}
+for k, v in ADD.items():
+    c = CHECKS[k]
+    CHECKS[k] = (c[0], c[1], c[2] + v, c[3], c[4])
 PENDING = {}
 props = [json.loads(l) for l in open(os.path.join(ROOT, "properties.jsonl"))]
 checks = []
@@ -135,7 +159,7 @@ m = {
               "kind_free_text": "Rust harness: proptest-driven generated-input search (per-case RNG streams, sharded over all cores, shrinking to replay files), exhaustive enumerations of finite sub-spaces, fault/chunk-schedule injection through instrumented streams, independent reference ZIP builder/strict parser/crypto as oracles, supervisor process for abort/hang diagnosis"}],
  "checks": checks,
  "not_applicable": na,
- "notes": "Exit codes: 0 held, 1 violation (VIOLATION line with replay file), 2 inconclusive (build failure, self-test failure, watchdog). VERIF_SEED selects the PRNG streams. KNOWN_FINDINGS.txt lists open/fixed findings.",
+ "notes": "Exit codes: 0 held, 1 violation (VIOLATION line with replay file), 2 inconclusive (build failure, self-test failure, watchdog). VERIF_SEED selects the PRNG streams. KNOWN_FINDINGS.txt lists open/fixed findings (3 open: C05 bzip2-c-decoder-uninitialised-read, C13 append-leaves-stale-tail, C16 ae2-compressed-early-stream-end; 14 fixed by unguarded fix: commits in /repo).",
 }
 json.dump(m, open(os.path.join(ROOT, "MANIFEST.json"), "w"), indent=1)
 print("checks:", len(checks), "not_applicable:", len(na))
